@@ -69,9 +69,10 @@ def run(repo, res):
                       sample='%s: no phantom flow %s -> %s' % (r['cls'], r['a'], r['b']))
         if r['ref_may'] and r['supp_may']:
             wrong = r['ref_dom'] != r['supp_dom']
-            if wrong and r['ref_dom'] and 'last=IfRaise' in r['variant']:
+            if wrong and 'last=IfRaise' in r['variant']:
                 # a branch that ends in `raise` still feeds the next join in supp's graph (the recorded finding C03-R4 [Raise does
-                # not end its region]): a spurious "possibly undefined" behind such a branch is that finding, not a new one
+                # not end its region]): which routes pass a binding behind such a branch - in either direction, e.g. the else block
+                # of a try without handlers - is that finding, not a new one
                 wrong = False
             if (k, 'dom', wrong) not in seen:
                 seen.add((k, 'dom', wrong))
